@@ -265,7 +265,7 @@ def run(run):
                 'response compared after every request, full store dump after every request (direct path, small layouts) or at the end; '
                 'distinct = (layout, history, path); non-trivial = history contains a write followed by a read')
     run.assumptions = ['register-file model vmon/spec/regfile.py', 'spec codec, reference ADU builder', 'sharing only between like tables']
-    n = run.scale(1500, 24000)
+    n = run.scale(1500, 300000)
     uniq = [0]
     for i in range(n):
         layout = gen_layout(r, i)
@@ -280,7 +280,7 @@ def run(run):
                          'path': '%s/%s' % (front, framing), 'history': hist[:4], 'requests': len(hist), 'verdict': 'agrees' if ok else 'differs'},
                  sample_class=(front, framing))
     # large layouts: full 65536-cell tables, high addresses
-    for i in range(run.scale(6, 60)):
+    for i in range(run.scale(6, 320)):
         z = bool(i % 2)
         layout = {'single': True, 'zero_mode': z, 'units': {1: {'c': SM.big_block_spec(True, z), 'd': SM.big_block_spec(True, z),
                                                                  'i': SM.big_block_spec(False, z), 'h': SM.big_block_spec(False, z), 'alias': {}}}}
@@ -292,7 +292,7 @@ def run(run):
         ok = check_direct(run, dict(case, layout=layout))
         run.case(h64(repr(case)), True, sample=dict(case, history=hist[:3], verdict='agrees' if ok else 'differs'), sample_class='big')
     # contexts that rely on the default blocks for some tables (ModbusSlaveContext() / only some tables passed)
-    for i in range(run.scale(10, 120)):
+    for i in range(run.scale(10, 640)):
         z = bool(i % 2)
         defaulted = [t for t in SM.TABLES if (i >> SM.TABLES.index(t)) & 1] or list(SM.TABLES)
         lay = {'alias': {}, 'defaulted': defaulted}
